@@ -803,6 +803,9 @@ func runByz(it HostileItem, res *HostileResult) {
 		}
 		res.Viol = append(res.Viol, ev.Violation{Property: "C08", Key: key, What: what, Replay: rp})
 	}
+	if it.From == 0 {
+		runByzFastForward(res, viol)
+	}
 	cont := []sched.Action{{K: "G", A: 1, B: 0}, {K: "T", A: 0}, {K: "G", A: 0, B: 2}, {K: "G", A: 2, B: 0}, {K: "G", A: 0, B: 1}, {K: "G", A: 1, B: 0}}
 	for k := it.From; k < len(cases) && k < it.To; k++ {
 		bc := cases[k]
@@ -930,5 +933,106 @@ func init() {
 		w := e.ToWire()
 		_, ferr = c.ProcessRPC(a.A, "byz wrong-index event", &net.EagerSyncRequest{FromID: c.Nodes[a.B].Peer.ID(), Events: []hg.WireEvent{w}})
 		return ferr
+	}
+}
+
+// runByzFastForward: validator 2 (database, fast-sync) is restarted with bootstrap and is CatchingUp while it already
+// holds delivered blocks 0..N. Validator 1, a peer it knows, answers its fast-forward requests with a well-formed
+// response of its own making: a frame that declares validator 1 the only validator, a block signed by validator 1, the
+// block index rewritten to K <= N and the round-received far ahead. Whatever the node does with it, the blocks it has
+// delivered stay what they are and it keeps working.
+func runByzFastForward(res *HostileResult, viol func(key, what string, rp map[string]interface{})) {
+	sim.KeyShift = 1
+	fsc := sched.Static(1, 44)
+	fx := sched.NewExec(fsc, nil)
+	fx.NoDigest = true
+	for _, a := range fsc.Seed {
+		fx.Step(a)
+	}
+	var forged *net.FastForwardResponse
+	if r, err := fx.C.ProcessRPC(0, "capture ff", &net.FastForwardRequest{FromID: fx.C.Nodes[0].Peer.ID()}); err == nil && r != nil {
+		forged = tamper.Copy(r.(*net.FastForwardResponse)).(*net.FastForwardResponse)
+	}
+	fx.Close()
+	sim.KeyShift = 0
+	if forged == nil {
+		return
+	}
+	for _, kSel := range []string{"1", "last", "last-1"} {
+		for _, rrAhead := range []int{10, 1000} {
+			sc := &sched.Scenario{Name: "c08-byzff", Cfg: sim.Config{N: 3, Badger: map[int]bool{2: true}, FastSyncOf: map[int]bool{2: true}, Dir: scratchDir()}}
+			x := sched.NewExec(sc, nil)
+			x.NoDigest = true
+			x.Step(sched.Action{K: "FF", A: 2})
+			for _, a := range sched.FairSeed(nodesOf(3), 50, 4) {
+				x.Step(a)
+			}
+			c := x.C
+			x.Step(sched.Action{K: "Crash", A: 2})
+			x.Step(sched.Action{K: "Restart", A: 2, Lim: 3})
+			t := c.Nodes[2]
+			last := t.Node.GetLastBlockIndex()
+			k := 1
+			switch kSel {
+			case "last":
+				k = last
+			case "last-1":
+				k = last - 1
+			}
+			if last < 2 || k < 1 {
+				x.Close()
+				continue
+			}
+			msg := tamper.Copy(forged).(*net.FastForwardResponse)
+			msg.Block.Body.Index = k
+			msg.Block.Body.RoundReceived = t.Node.GetLastConsensusRoundIndex() + rrAhead
+			msg.Block.Signatures = map[string]string{}
+			bs, _ := msg.Block.Sign(sim.Key(1))
+			msg.Block.Signatures[bs.ValidatorHex()] = bs.Signature
+			res.Attempts++
+			cd := commitsDigest(t)
+			restores := len(t.App.Restores)
+			stored := map[int]string{}
+			for i := 0; i <= last; i++ {
+				if b, err := t.Node.GetBlock(i); err == nil {
+					raw, _ := json.Marshal(b.Body)
+					stored[i] = string(raw)
+				}
+			}
+			hostile := &sim.Plan{AnswerAs: 1, AnswerAsSet: true, Answer: func(kind string, args interface{}) (interface{}, bool) {
+				if kind == "ff" {
+					return tamper.Copy(msg), true
+				}
+				return nil, false
+			}}
+			err := c.FastForward(2, hostile)
+			rp := map[string]interface{}{"kind": "byz-ff", "block_index": k, "round_received_ahead": rrAhead}
+			label := fmt.Sprintf("a fast-forward response made by known validator 1 alone (frame with itself as only validator, block signed by itself, index %d <= own last block %d, round-received %d ahead)", k, last, rrAhead)
+			if c.Panic != "" {
+				viol("panic:"+panicKey(c.Panic), label+": panic: "+firstLines(c.Panic, 1), rp)
+				x.Close()
+				continue
+			}
+			if len(t.App.Restores) != restores {
+				viol("application-restored-to-a-hostile-snapshot", fmt.Sprintf("%s: the node's application was restored from the responder's snapshot (err=%v)", label, err), rp)
+			}
+			if d := commitsDigest(t); d != cd && !strings.HasPrefix(d, cd) {
+				viol("delivered-blocks-changed", label+" changed delivered blocks", rp)
+			}
+			for i, want := range stored {
+				b, berr := t.Node.GetBlock(i)
+				if berr != nil {
+					viol("delivered-block-no-longer-reported", fmt.Sprintf("%s: block %d, delivered before, is no longer reported (%v)", label, i, berr), rp)
+					break
+				}
+				raw, _ := json.Marshal(b.Body)
+				if string(raw) != want {
+					viol("delivered-block-rewritten", fmt.Sprintf("%s: the node now reports another body for block %d, which it had delivered", label, i), rp)
+					break
+				}
+			}
+			res.Outcomes["byz: fast-forward response of a known validator's own making"]++
+			x.Close()
+		}
 	}
 }
